@@ -44,6 +44,9 @@ func luaCall(args []string) string {
 
 // one random data-modifying command, not wrapped in a script
 func genPlain(rng *rand.Rand, allowShortTTL bool) []string {
+	if rng.Intn(11) == 0 {
+		return genRefused(rng)
+	}
 	k, id := pick(rng, keys), pick(rng, ids)
 	switch x := rng.Intn(90); {
 	case x < 30:
@@ -101,6 +104,59 @@ func genPlain(rng *rand.Rand, allowShortTTL bool) []string {
 		return append(a, "NEARBY", k, "FENCE", "DETECT", "enter,exit", "POINT", "33", "-112", "5000")
 	default:
 		return []string{[]string{"DELHOOK", "DELCHAN", "PDELHOOK", "PDELCHAN"}[rng.Intn(4)], []string{"h0", "h1", "h*"}[rng.Intn(3)]}
+	}
+}
+
+// genRefused: a command the server refuses, answers with an error, or answers "nothing done",
+// mostly on a key that does NOT exist (ghost0..2 are never written by anything else; RENAME can move
+// them around like any other key). Such a command must leave nothing behind — neither in memory
+// (a registered but empty collection shows in KEYS and is a valid RENAME source) nor in the log.
+func genRefused(rng *rand.Rand) []string {
+	g := "ghost" + strconv.Itoa(rng.Intn(3))
+	if rng.Intn(4) == 0 {
+		g = pick(rng, keys)
+	}
+	id := pick(rng, ids)
+	switch rng.Intn(22) {
+	case 0, 1, 2:
+		return []string{"JSET", g, id, "", []string{"x", "5", `{"a":1}`}[rng.Intn(3)]}
+	case 3:
+		return []string{"JSET", g, id, "", "5", []string{"RAW", "STR"}[rng.Intn(2)]}
+	case 4:
+		return []string{"JSET", g, id, "a.b", "1", "BOGUS"}
+	case 5:
+		return []string{"JSET", g, id, "a.b"}
+	case 6:
+		return []string{"JSET", g, id, "type", "Bogus"} // on a geometry: the re-parse fails
+	case 7:
+		return []string{"SET", g, id, "XX", "POINT", "1", "1"}
+	case 8:
+		return []string{"SET", g, id, "XX", "EX", "5000", "STRING", "v"}
+	case 9:
+		return [][]string{{"SET", g, id}, {"SET", g, id, "POINT", "1"}, {"SET", g, id, "POINT", "1", "x"}, {"SET", g, id, "OBJECT", `{"type":"Poi`},
+			{"SET", g, id, "FIELD", "speed"}, {"SET", g, id, "EX", "abc", "POINT", "1", "1"}, {"SET", g, id, "BOGUS", "1", "1"}, {"SET", g, id, "HASH", "!!"}}[rng.Intn(8)]
+	case 10:
+		return []string{"FSET", g, id, "speed", "1"}
+	case 11:
+		return []string{"FSET", g, id, "XX", "speed", "1"}
+	case 12:
+		return []string{"EXPIRE", g, id, "5000"}
+	case 13:
+		return []string{"PERSIST", g, id}
+	case 14, 15:
+		return []string{"RENAME", g, pick(rng, keys)}
+	case 16:
+		return []string{"RENAMENX", g, pick(rng, keys)}
+	case 17:
+		return []string{"RENAME", g, g}
+	case 18:
+		return []string{"JDEL", g, id, []string{"a", "", "a.*"}[rng.Intn(3)]}
+	case 19:
+		return []string{"DEL", g, id}
+	case 20:
+		return []string{"PDEL", g, "*"}
+	default:
+		return []string{"DROP", g}
 	}
 }
 
@@ -244,12 +300,16 @@ func toggle(rng *rand.Rand, src []string, allowShortTTL bool) []string {
 }
 
 func run(r *hx.Result, cfg hx.Config) {
-	r.Rule = "first two directed histories of 85 commands with small / partial / empty effects (identical SET with EX added, changed, dropped; one FIELD changed; NX/XX; unchanged FSET; EXPIRE to the same value; PERSIST twice; repeated JSET/JDEL; RENAME onto itself; identical SETCHAN/SETHOOK with another EX; through EVAL and TIMEOUT), state incl. TTLs rounded to 100 s taken after every command: restart (kill / stop) reproduces it, and every command that changed it has its record in appendonly.aof; then history = 40-120 random data-modifying commands (SET with FIELD/EX/NX/XX and every object kind, FSET, DEL, PDEL, DROP, RENAME(NX), FLUSHDB, EXPIRE, PERSIST, JSET, JDEL, SETHOOK/SETCHAN with META/EX, DEL/PDELHOOK/CHAN, each also through EVAL/EVALNA) where 22% of the steps re-send an earlier command of the history with one option toggled (EX added/removed/changed, NX/XX, one FIELD dropped or changed, META changed), with sub-second TTLs left to expire; quiescent mode: dump, clean stop or kill -9, restart, dump must be identical (has-deadline included); load mode: several connections write increasing sequence numbers, the process is killed at a random instant, after restart every key holds at least its last acknowledged number and at most its last sent one, and a further restart changes nothing. non-trivial = distinct history with at least 10 effective writes of at least 5 command kinds."
+	r.Rule = "first two directed histories of 123 commands with small / partial / empty effects, incl. 38 refused / erroring / nothing-done commands on missing and existing keys (JSET with the empty path, a bad flag, too few arguments; SET XX, malformed SET, FSET, EXPIRE, PERSIST, JDEL, DEL, PDEL, DROP, RENAME(NX) of a missing key, through EVAL too) with the extra oracle that a command answered with an error leaves the dump unchanged; two timed histories (80 ids: SET EX 0.02, 25-75 ms later SET NX / XX / PERSIST / EXPIRE / FSET / JSET / DEL on the same id, i.e. between deadline and collection; dump once nothing is pending, restart, dump); the random generator issues refused commands on never-written keys ghost0..2 one step in eleven; (identical SET with EX added, changed, dropped; one FIELD changed; NX/XX; unchanged FSET; EXPIRE to the same value; PERSIST twice; repeated JSET/JDEL; RENAME onto itself; identical SETCHAN/SETHOOK with another EX; through EVAL and TIMEOUT), state incl. TTLs rounded to 100 s taken after every command: restart (kill / stop) reproduces it, and every command that changed it has its record in appendonly.aof; then history = 40-120 random data-modifying commands (SET with FIELD/EX/NX/XX and every object kind, FSET, DEL, PDEL, DROP, RENAME(NX), FLUSHDB, EXPIRE, PERSIST, JSET, JDEL, SETHOOK/SETCHAN with META/EX, DEL/PDELHOOK/CHAN, each also through EVAL/EVALNA) where 22% of the steps re-send an earlier command of the history with one option toggled (EX added/removed/changed, NX/XX, one FIELD dropped or changed, META changed), with sub-second TTLs left to expire; quiescent mode: dump, clean stop or kill -9, restart, dump must be identical (has-deadline included); load mode: several connections write increasing sequence numbers, the process is killed at a random instant, after restart every key holds at least its last acknowledged number and at most its last sent one, and a further restart changes nothing. non-trivial = distinct history with at least 10 effective writes of at least 5 command kinds."
 	r.Assumptions = []string{"kill -9 leaves the bytes already written to the file (page cache survives a process kill)", "srv.Dump is the visible state: KEYS, SCAN with fields, TTL class, HOOKS, CHANS"}
 	rng := rand.New(rand.NewSource(cfg.Seed))
 	// directed regression histories first: commands whose effect is small or partial
 	for _, how := range []string{"kill", "stop"} {
 		runDirected(r, cfg, how)
+	}
+	// timed directed history: writes that arrive between an object's deadline and its collection
+	for _, how := range []string{"kill", "stop"} {
+		runTimed(r, cfg, how, rng.Int63())
 	}
 	n := 14
 	if cfg.Tier == "thorough" || cfg.Search {
@@ -693,10 +753,54 @@ func directedHistory() []dcmd {
 		plainCmd(with(HK, 3, "EX", "9000")...),
 		plainCmd(HK...),
 		plainCmd(with(HK, 3, "EX", "5000")...),
+	}
+	// refused / erroring / "nothing done" commands, first on keys that do not exist: nothing may be
+	// left behind (a collection registered before the refusal shows in KEYS and is a RENAME source)
+	h = append(h,
+		plainCmd("JSET", "drafts", "n1", "", "x"),
+		plainCmd("JSET", "drafts", "n1", "", "5", "RAW"),
+		plainCmd("JSET", "drafts", "n1", "", "x", "STR"),
+		plainCmd("JSET", "drafts", "n1", "a.b", "x", "BOGUS"),
+		plainCmd("JSET", "drafts", "n1", "a.b"),
+		evalCmd("JSET", "drafts2", "n1", "", "x"),
+		plainCmd("SET", "ghost", "g1", "XX", "POINT", "1", "1"),
+		plainCmd("SET", "ghost", "g1", "XX", "EX", "5000", "STRING", "v"),
+		plainCmd("SET", "ghost", "g1", "POINT", "1"),
+		plainCmd("SET", "ghost", "g1", "POINT", "1", "x"),
+		plainCmd("SET", "ghost", "g1", "OBJECT", `{"type":"Poi`),
+		plainCmd("SET", "ghost", "g1", "FIELD", "speed"),
+		plainCmd("SET", "ghost", "g1", "EX", "abc", "POINT", "1", "1"),
+		evalCmd("SET", "ghost", "g1", "XX", "POINT", "1", "1"),
+		plainCmd("FSET", "ghost", "g1", "speed", "1"),
+		plainCmd("FSET", "ghost", "g1", "XX", "speed", "1"),
+		evalCmd("FSET", "ghost", "g1", "speed", "1"),
+		plainCmd("EXPIRE", "ghost", "g1", "5000"),
+		plainCmd("PERSIST", "ghost", "g1"),
+		plainCmd("JDEL", "ghost", "g1", "a"),
+		plainCmd("JDEL", "ghost", "g1", ""),
+		plainCmd("DEL", "ghost", "g1"),
+		plainCmd("PDEL", "ghost", "*"),
+		plainCmd("DROP", "ghost"),
+		plainCmd("RENAME", "ghost", "fleet"),
+		plainCmd("RENAMENX", "ghost", "fleet"),
+		plainCmd("RENAME", "ghost", "ghost"),
+		// the keys of the refused JSETs as RENAME sources: must still be "key not found"
+		plainCmd("RENAMENX", "drafts2", "zoo"),
+		plainCmd("RENAME", "drafts", "fleet"),
+		// the same refusals on existing keys / ids
+		plainCmd("JSET", "fleet", "a", "", "x"),
+		plainCmd("JSET", "fleet", "s", "", "x"),
+		plainCmd("JSET", "fleet", "newid", "", "x"),
+		plainCmd("JSET", "fleet", "a", "type", "Bogus"),
+		plainCmd("JDEL", "fleet", "a", ""),
+		plainCmd("SET", "fleet", "a", "XX", "POINT", "1", "x"),
+		plainCmd("SET", "fleet", "newid", "XX", "POINT", "1", "1"),
+		plainCmd("FSET", "fleet", "newid", "speed", "1"),
+		plainCmd("EXPIRE", "fleet", "newid", "5000"),
 		// objects that end with / without deadline after several flips
 		plainCmd(with(A, 3, "EX", "5000")...),
 		plainCmd(B...),
-	}
+	)
 	return h
 }
 
@@ -722,7 +826,13 @@ func runDirected(r *hx.Result, cfg hx.Config, how string) {
 		}
 		sent = append(sent, strings.Join(d.wire, " ")+"  -> "+v.String())
 		cur := fineDump(c)
-		if cur != prev {
+		if cur != prev && v.Kind == '-' {
+			// oracle: a command answered with an error (also an error caught by pcall and handed
+			// back as the script's reply) is not acknowledged, is not logged, and so must leave the
+			// visible state exactly as it was
+			r.Fail(hx.Failure{Kind: "oracle", Signature: "refused-command-changed-state", What: fmt.Sprintf("%q was answered with the error %q but the visible state differs before and after it: %s", strings.Join(d.wire, " "), v.Str, firstDiff(prev, cur)),
+				Case: map[string]interface{}{"history": sent, "command": d.wire, "before": prev, "after": cur}})
+		} else if cur != prev {
 			changed++
 			kinds[d.log[0]] = true
 			// a handler error inside pcall comes back as a value, an error reply is still an
@@ -776,6 +886,130 @@ func runDirected(r *hx.Result, cfg hx.Config, how string) {
 	r.Sample(4, map[string]interface{}{"mode": "directed/" + how, "commands": len(hist), "changed_state": changed, "log_records": len(recs), "first": sent[:4], "dump_lines": strings.Count(before, "\n")})
 	if after != before {
 		r.Fail(hx.Failure{Kind: "oracle", Signature: "restart-state-differs", What: "directed history: the visible state after restart (" + how + ") differs from the acknowledged state before it: " + firstDiff(before, after),
+			Case: map[string]interface{}{"history": sent, "before": before, "after": after}})
+	}
+}
+
+// ---------- timed directed history: writes in the window "deadline passed, not yet swept" ----------
+
+// waitNoPending polls until no object carries a deadline any more (every short deadline has been
+// collected and its DEL logged) and returns the dump taken then.
+func waitNoPending(c *srv.Conn, max time.Duration) (string, bool) {
+	end := time.Now().Add(max)
+	for {
+		d := srv.Dump(c)
+		if !strings.Contains(d, "+deadline") {
+			return d, true
+		}
+		if time.Now().After(end) {
+			return d, false
+		}
+		time.Sleep(40 * time.Millisecond)
+	}
+}
+
+// runTimed: batches of ids get `SET k id EX 0.02 …`; 25-75 ms later (the sweeper passes every 100 ms,
+// so roughly half of the batches are past their deadline and not yet collected) each id receives one
+// conditional or partial write: SET NX, SET XX, PERSIST, EXPIRE, FSET, JSET, DEL. Whatever the server
+// decides in that window it decides looking at the clock, and replay re-arms every deadline relative
+// to the time of the replay: if the decision (applied or refused) is not a function of the logged
+// prefix alone, the restart disagrees. Nothing is asserted about the replies. The state is compared
+// once no deadline is pending, before the stop/kill and after the restart.
+func runTimed(r *hx.Result, cfg hx.Config, how string, seed int64) {
+	rng := rand.New(rand.NewSource(seed))
+	dir := filepath.Join(cfg.Work, "timed-"+how)
+	s, err := srv.Start(dir)
+	if err != nil {
+		panic(err)
+	}
+	defer func() { s.Kill() }()
+	c := s.MustDial()
+	var sent []string
+	do := func(a ...string) bool {
+		v, err := c.Do(a...)
+		if err != nil {
+			r.Fail(hx.Failure{Kind: "oracle", Signature: "server-died", What: fmt.Sprintf("connection lost on %q: %v; log: %s", a, err, s.LogTail(500)), Case: sent})
+			return false
+		}
+		sent = append(sent, strings.Join(a, " ")+"  -> "+v.String())
+		return true
+	}
+	second := func(k, id string, m int) []string {
+		switch m {
+		case 0, 1, 2:
+			return []string{"SET", k, id, "NX", "POINT", "2", "2"}
+		case 3:
+			return []string{"SET", k, id, "NX", "EX", "5000", "STRING", "second"}
+		case 4:
+			return []string{"SET", k, id, "XX", "POINT", "3", "3"}
+		case 5:
+			return []string{"PERSIST", k, id}
+		case 6:
+			return []string{"EXPIRE", k, id, "5000"}
+		case 7:
+			return []string{"FSET", k, id, "speed", "9"}
+		case 8:
+			return []string{"FSET", k, id, "XX", "speed", "9"}
+		case 9:
+			return []string{"JSET", k, id, "properties.n", "7"}
+		case 10:
+			return []string{"EVAL", luaCall([]string{"SET", k, id, "NX", "POINT", "4", "4"}), "0"}
+		default:
+			return []string{"DEL", k, id}
+		}
+	}
+	batches, per := 10, 8
+	kinds := map[string]bool{}
+	for b := 0; b < batches; b++ {
+		k := []string{"fleet", "zoo"}[b%2]
+		for i := 0; i < per; i++ {
+			id := fmt.Sprintf("t%d_%d", b, i)
+			if !do("SET", k, id, "EX", "0.02", "FIELD", "speed", "1", "POINT", "1", "1") {
+				return
+			}
+		}
+		time.Sleep(time.Duration(25+rng.Intn(50)) * time.Millisecond)
+		for i := 0; i < per; i++ {
+			a := second(k, fmt.Sprintf("t%d_%d", b, i), rng.Intn(13))
+			kinds[a[0]+" "+a[3%len(a)]] = true
+			if !do(a...) {
+				return
+			}
+		}
+	}
+	// the 5000 s deadlines set above are permanent for the purpose of this history: make them so,
+	// then wait until no short deadline is pending
+	for b := 0; b < batches; b++ {
+		for i := 0; i < per; i++ {
+			c.Do("PERSIST", []string{"fleet", "zoo"}[b%2], fmt.Sprintf("t%d_%d", b, i))
+		}
+	}
+	before, quiet := waitNoPending(c, 4*time.Second)
+	c.Close()
+	if how == "kill" {
+		s.Kill()
+	} else {
+		s.Stop()
+	}
+	r.Count("timed/"+how+"/"+strconv.FormatInt(seed, 10), len(kinds) >= 5)
+	r.Dist("timed:" + how)
+	r.TracesImpl++
+	if !quiet {
+		r.Fail(hx.Failure{Kind: "oracle", Signature: "deadline-never-collected", What: "timed history: 4 s after the last command an object with a 0.02 s deadline is still there: " + before, Case: sent})
+		return
+	}
+	s2, err := srv.StartPort(dir, srv.FreePort())
+	if err != nil {
+		r.Fail(hx.Failure{Kind: "oracle", Signature: "restart-failed", What: "server did not restart after " + how + " (timed history): " + err.Error(), Case: sent})
+		return
+	}
+	s = s2
+	c2 := s2.MustDial()
+	after, _ := waitNoPending(c2, 4*time.Second)
+	c2.Close()
+	r.Sample(6, map[string]interface{}{"mode": "timed/" + how, "commands": len(sent), "second_write_kinds": len(kinds), "dump_lines": strings.Count(before, "\n"), "first": sent[:3]})
+	if after != before {
+		r.Fail(hx.Failure{Kind: "oracle", Signature: "restart-state-differs", What: "timed history (SET EX 0.02, 25-75 ms later a conditional write on the same id, then quiescence): the visible state after restart (" + how + ") differs from the acknowledged state before it: " + firstDiff(before, after),
 			Case: map[string]interface{}{"history": sent, "before": before, "after": after}})
 	}
 }
